@@ -57,12 +57,23 @@ def report(prop, tier, seed, mod, results, wall, write=True):
         if line not in seen_known:
             seen_known.add(line)
             print(line)
-    for case, v in violations:
+    for n_, (case, v) in enumerate(violations):
+        if n_ >= 25:
+            print(f'  ... {len(violations) - 25} more violations (see evidence / replays)')
+            break
         print(f"VIOLATION property={prop} replay={v.get('replay')}")
         print(f"  case={case} obligation={v.get('obligation')} inputs={json.dumps(v.get('inputs'), default=str)[:400]}"
               f" failures={v.get('replayed_failures')} exc={v.get('exception')}")
+    seen_inc = set()
     for case, msg in inconclusive:
-        print(f'INCONCLUSIVE property={prop} case={case}: {str(msg)[:700]}')
+        sig = (case, str(msg)[:60])
+        if sig in seen_inc:
+            continue
+        seen_inc.add(sig)
+        if len(seen_inc) <= 40:
+            print(f'INCONCLUSIVE property={prop} case={case}: {str(msg)[:700]}')
+    if len(seen_inc) > 40:
+        print(f'INCONCLUSIVE property={prop}: ... {len(seen_inc) - 40} more distinct inconclusive results')
 
     if violations:
         code = 1
